@@ -178,7 +178,16 @@ impl LayersData {
     }
 
     pub(crate) fn from_vec(layers: Vec<LayerData>) -> Result<Self> {
-        // TODO: Validate some properties
+        // The first layer cannot be nested: there is no earlier layer that
+        // could be its parent.
+        if let Some(first) = layers.first() {
+            if first.child_level != 0 {
+                return Err(AsepriteParseError::InvalidInput(format!(
+                    "First layer must have child level 0, found {}",
+                    first.child_level
+                )));
+            }
+        }
         let parents = compute_parents(&layers);
         Ok(LayersData { layers, parents })
     }
